@@ -23,6 +23,9 @@ def run(ctx):
     cfg = CFG(f)
     rd = ReachingDefs(cfg)
     leg, vs = r141(ctx)
+    r145(ctx)
+    from . import c08
+    c08.r85(ctx)
 
     # R14.2
     n = meta_rules.filepath_rule(ctx, 'R14.2', only={'util'})
@@ -175,3 +178,42 @@ def r141(ctx):
     ctx.ob('R14.1', 'util.metadata_from_many:mixed-inputs-refused', len(mixed) == 1, '', ut.loc(f))
     return leg, vs
 
+
+
+def r145(ctx, rule='R14.5'):
+    """concurrent footer fetch: a file's piece must hold footer + 8 trailer bytes (length word, magic), which is
+    what _get_fmd seeks back over.  With F the length word: the quantity compared with the speculative window
+    is F + 8, and the re-fetch reaches back max(F) + 8 bytes"""
+    from .c17 import _poly
+    ut = ctx.repo['util']
+    f = ut.func('metadata_from_many')
+    g = ut.func('_get_fmd')
+    seeks = [c for c in ast.walk(g) if isinstance(c, ast.Call) and callee(c) == 'f.seek' and 'head_size' in norm(c)]
+    back = _poly(seeks[0].args[0]) if seeks else None
+    ctx.ob(rule, 'util._get_fmd:footer-starts-length+8-before-the-end', back == {('head_size',): -1, (): -8},
+           'seek(%s, 2)' % (norm(seeks[0].args[0]) if seeks else '?'), ut.loc(g))
+    sz = [st for st in iter_child_stmts(f.body) if isinstance(st, ast.Assign) and norm(st.targets[0]) == 'sizes'
+          and isinstance(st.value, ast.DictComp)]
+    ctx.ob(rule, 'util.metadata_from_many:needed-tail-length-per-file-computed', len(sz) == 1, '', ut.loc(f))
+    if len(sz) != 1:
+        return
+    need = _poly(sz[0].value.value)
+    atoms = [k for k in need if k]
+    c1 = need.get((), 0)
+    lenword = len(atoms) == 1 and need[atoms[0]] == 1 and 'from_bytes' in atoms[0][0] and '[-8:-4]' in atoms[0][0]
+    ctx.ob(rule, 'util.metadata_from_many:footer-length-read-from-the-length-word', lenword, str(need), ut.loc(sz[0]))
+    cmp_ = [c for c in ast.walk(f) if isinstance(c, ast.Compare) and norm(c) in ('s > size', 'size < s')]
+    ctx.ob(rule, 'util.metadata_from_many:window-compared-with-footer+8', len(cmp_) == 1 and c1 == 8,
+           'files whose needed tail (%s) exceeds the speculative window are re-fetched; the needed tail is the footer plus '
+           '8 trailer bytes, otherwise a footer within 8 bytes of the window is parsed from a short piece' % need, ut.loc(sz[0]))
+    cats = [c for c in ast.walk(f) if isinstance(c, ast.Call) and callee(c) == 'fs.cat' and 'not_bigenough' in norm(c)]
+    ok = False
+    d = 're-fetch call not found'
+    if len(cats) == 1:
+        st = kwarg(cats[0], 'start', 1)
+        p = _poly(st) if st is not None else {}
+        mx = [k for k in p if k and 'max(sizes.values())' in k[0]]
+        c2 = -p.get((), 0)
+        ok = len(mx) == 1 and p[mx[0]] == -1 and c1 + c2 == 8
+        d = 'start=%s with sizes = F%+d: reaches back max(F)%+d bytes (need max(F)+8)' % (norm(st) if st is not None else '?', c1, c1 + c2)
+    ctx.ob(rule, 'util.metadata_from_many:re-fetch-reaches-back-footer+8', ok, d, ut.loc(cats[0]) if cats else ut.loc(f))
